@@ -5,6 +5,7 @@ import (
 	"go/ast"
 	"go/token"
 	"go/types"
+	"sort"
 	"strings"
 
 	"golang.org/x/tools/go/packages"
@@ -606,4 +607,880 @@ func ruleENCHEAD(c *Ctx) []Obligation {
 		obs = append(obs, o)
 	})
 	return obs
+}
+
+// ---------------------------------------------------------------------------
+// RESOLVE-PATH
+
+func init() {
+	register(&Rule{
+		Name:  "RESOLVE-PATH",
+		Doc:   "in a translator of package asm, a resolving call at the top level of the body (a call of another function of the package that can fail: irType, irValue, irConstant …) lies on every path that does not fail: no earlier statement returns anything but an error, unless that return sits under a test of the very value the call resolves — a fast path around the call leaves the part of the input it would have resolved (a written type, an operand) unchecked, so an undefined name in it is accepted silently",
+		Floor: 100,
+		Run:   ruleRESOLVEPATH,
+	})
+}
+
+func ruleRESOLVEPATH(c *Ctx) []Obligation {
+	var obs []Obligation
+	c.eachFunc(pkgASM, func(p *packages.Package, fd *ast.FuncDecl, fn *types.Func) {
+		info := p.TypesInfo
+		sig := fn.Type().(*types.Signature)
+		nres := sig.Results().Len()
+		if nres == 0 || !isErrorType(sig.Results().At(nres-1).Type()) {
+			return
+		}
+		defs := collectDefs(info, fd.Body)
+		pm := buildParents(fd.Body)
+		localsIn := func(e ast.Node, into map[types.Object]bool) {
+			ast.Inspect(e, func(m ast.Node) bool {
+				if id, ok := m.(*ast.Ident); ok {
+					if v, ok := info.Uses[id].(*types.Var); ok && !v.IsField() && v.Parent() != nil && v.Pkg() != nil && v.Parent() != v.Pkg().Scope() {
+						into[v] = true
+					}
+				}
+				return true
+			})
+		}
+		resolver := func(e ast.Expr) *ast.CallExpr {
+			call, ok := unparen(e).(*ast.CallExpr)
+			if !ok {
+				return nil
+			}
+			f := calleeOf(info, call)
+			if f == nil || f.Pkg() == nil || f.Pkg().Path() != pkgASM {
+				return nil
+			}
+			rs := f.Type().(*types.Signature).Results()
+			if rs.Len() == 0 || !isErrorType(rs.At(rs.Len()-1).Type()) {
+				return nil
+			}
+			return call
+		}
+		// early exits: non-error returns nested in each top-level statement
+		type exit struct {
+			idx   int
+			pos   token.Pos
+			guard map[types.Object]bool
+		}
+		var exits []exit
+		for i, st := range fd.Body.List {
+			if i == len(fd.Body.List)-1 {
+				if _, isRet := st.(*ast.ReturnStmt); isRet {
+					continue
+				}
+			}
+			ast.Inspect(st, func(nd ast.Node) bool {
+				switch x := nd.(type) {
+				case *ast.FuncLit:
+					return false
+				case *ast.ReturnStmt:
+					if returnsError(info, []ast.Stmt{x}) {
+						return true
+					}
+					g := map[types.Object]bool{}
+					for q := pm[x]; q != nil; q = pm[q] {
+						switch y := q.(type) {
+						case *ast.IfStmt:
+							localsIn(y.Cond, g)
+						case *ast.CaseClause:
+							for _, e := range y.List {
+								localsIn(e, g)
+							}
+						case *ast.SwitchStmt:
+							if y.Tag != nil {
+								localsIn(y.Tag, g)
+							}
+						case *ast.TypeSwitchStmt:
+							localsIn(y.Assign, g)
+						}
+					}
+					exits = append(exits, exit{i, x.Pos(), g})
+				}
+				return true
+			})
+		}
+		dependsOn := func(e ast.Node, guard map[types.Object]bool) bool {
+			seen := map[types.Object]bool{}
+			var walk func(e ast.Node, depth int) bool
+			walk = func(e ast.Node, depth int) bool {
+				used := map[types.Object]bool{}
+				localsIn(e, used)
+				for v := range used {
+					if guard[v] {
+						return true
+					}
+				}
+				if depth >= 4 {
+					return false
+				}
+				for v := range used {
+					if seen[v] {
+						continue
+					}
+					seen[v] = true
+					for _, d := range defs[v] {
+						if walk(d, depth+1) {
+							return true
+						}
+					}
+				}
+				return false
+			}
+			return walk(e, 0)
+		}
+		n := 0
+		for i, st := range fd.Body.List {
+			var call *ast.CallExpr
+			switch x := st.(type) {
+			case *ast.AssignStmt:
+				if len(x.Rhs) == 1 {
+					call = resolver(x.Rhs[0])
+				}
+			case *ast.IfStmt:
+				if as, ok := x.Init.(*ast.AssignStmt); ok && len(as.Rhs) == 1 {
+					call = resolver(as.Rhs[0])
+				}
+			case *ast.ReturnStmt:
+				if len(x.Results) == 1 {
+					call = resolver(x.Results[0])
+				}
+			}
+			if call == nil {
+				continue
+			}
+			n++
+			o := Obligation{Key: fmt.Sprintf("%s: resolving call #%d %s is on every path that succeeds", funcKey(fn), n, exprString(call.Fun)), Pos: c.pos(call.Pos()), Verdict: OK, Tags: asmTags(fn.Name(), "")}
+			for _, ex := range exits {
+				if ex.idx >= i {
+					continue
+				}
+				// the call's arguments depend on what the early return tests (an optional part that
+				// is absent on that path)?
+				dep := false
+				for _, a := range call.Args {
+					if dependsOn(a, ex.guard) {
+						dep = true
+					}
+				}
+				if dep {
+					continue
+				}
+				o.Verdict, o.Pos = VIOL, c.pos(ex.pos)
+				o.Detail = fmt.Sprintf("the return at %s leaves the function without an error before %s(%s) has run, and does not depend on a test of what that call resolves: on that path this part of the input is never resolved, so an undefined name (or an ill-formed construct) in it is accepted silently", c.pos(ex.pos), exprString(call.Fun), argsString(call))
+				break
+			}
+			obs = append(obs, o)
+		}
+	})
+	return obs
+}
+
+func argsString(call *ast.CallExpr) string {
+	var parts []string
+	for _, a := range call.Args {
+		parts = append(parts, exprString(a))
+	}
+	return strings.Join(parts, ", ")
+}
+
+// ---------------------------------------------------------------------------
+// FILL-ORDER
+
+func init() {
+	register(&Rule{
+		Name:  "FILL-ORDER",
+		Doc:   "a translator of package asm does not read a field of the IR object it is filling before the statement in which it first stores that field: a value computed from the still-empty field (a callee signature built from inst.Args before the arguments are translated) is computed from nothing",
+		Floor: 100,
+		Run:   ruleFILLORDER,
+	})
+}
+
+func ruleFILLORDER(c *Ctx) []Obligation {
+	var obs []Obligation
+	defer func() { sort.SliceStable(obs, func(i, j int) bool { return obs[i].Key < obs[j].Key }) }()
+	c.eachFunc(pkgASM, func(p *packages.Package, fd *ast.FuncDecl, fn *types.Func) {
+		info := p.TypesInfo
+		// translators: functions that are handed a node of the syntax tree (a fix-up step that
+		// reads a placeholder and replaces it is not filling from the input)
+		sig := fn.Type().(*types.Signature)
+		hasAST := false
+		for i := 0; i < sig.Params().Len(); i++ {
+			if isASTElem(sig.Params().At(i).Type()) {
+				hasAST = true
+			}
+			if sl, ok := sig.Params().At(i).Type().Underlying().(*types.Slice); ok && isASTElem(sl.Elem()) {
+				hasAST = true
+			}
+		}
+		if !hasAST {
+			return
+		}
+		type key struct {
+			obj   types.Object
+			field string
+		}
+		// top-level statement index of a position
+		topIdx := func(pos token.Pos) int {
+			for i, st := range fd.Body.List {
+				if st.Pos() <= pos && pos < st.End() {
+					return i
+				}
+			}
+			return -1
+		}
+		fieldOf := func(e ast.Expr) (key, *types.Named, bool) {
+			se, ok := unparen(e).(*ast.SelectorExpr)
+			if !ok {
+				return key{}, nil, false
+			}
+			sel, ok := info.Selections[se]
+			if !ok || sel.Kind() != types.FieldVal {
+				return key{}, nil, false
+			}
+			id, ok := unparen(se.X).(*ast.Ident)
+			if !ok {
+				return key{}, nil, false
+			}
+			v, ok := info.ObjectOf(id).(*types.Var)
+			if !ok || v.IsField() {
+				return key{}, nil, false
+			}
+			n := namedOf(sel.Recv())
+			if n == nil || n.Obj().Pkg() == nil || !isIRPkg(n.Obj().Pkg().Path()) {
+				return key{}, nil, false
+			}
+			return key{v, se.Sel.Name}, n, true
+		}
+		firstWrite := map[key]token.Pos{}
+		owner := map[key]*types.Named{}
+		lhsNodes := map[ast.Node]bool{}
+		ast.Inspect(fd.Body, func(nd ast.Node) bool {
+			as, ok := nd.(*ast.AssignStmt)
+			if !ok {
+				return true
+			}
+			for _, l := range as.Lhs {
+				target := unparen(l)
+				if ix, ok := target.(*ast.IndexExpr); ok {
+					target = unparen(ix.X)
+				}
+				if k, n, ok := fieldOf(target); ok {
+					lhsNodes[target] = true
+					if old, has := firstWrite[k]; !has || as.Pos() < old {
+						firstWrite[k] = as.Pos()
+						owner[k] = n
+					}
+				}
+			}
+			return true
+		})
+		if len(firstWrite) == 0 {
+			return
+		}
+		reported := map[key]bool{}
+		for k, w := range firstWrite {
+			o := Obligation{Key: fmt.Sprintf("%s fills %s.%s before reading it", funcKey(fn), typeKey(owner[k]), k.field), Pos: c.pos(w), Verdict: OK, Tags: asmTags(fn.Name(), typeKey(owner[k]))}
+			wi := topIdx(w)
+			ast.Inspect(fd.Body, func(nd ast.Node) bool {
+				se, ok := nd.(*ast.SelectorExpr)
+				if !ok || lhsNodes[se] || reported[k] {
+					return true
+				}
+				k2, _, ok := fieldOf(se)
+				if !ok || k2 != k {
+					return true
+				}
+				if se.Pos() < w && topIdx(se.Pos()) < wi {
+					reported[k] = true
+					o.Verdict, o.Pos = VIOL, c.pos(se.Pos())
+					o.Detail = fmt.Sprintf("%s is read at %s, before the statement at %s that first stores it: what is computed from it there is computed from the empty field, whatever the input says", exprString(se), c.pos(se.Pos()), c.pos(w))
+				}
+				return true
+			})
+			obs = append(obs, o)
+		}
+	})
+	return obs
+}
+
+// ---------------------------------------------------------------------------
+// CTOR-ID
+
+func init() {
+	register(&Rule{
+		Name:  "CTOR-ID",
+		Doc:   "a constructor or builder method of the IR packages (New…) keeps the objects it is handed, not copies of them: it never dereferences a pointer-typed argument (or an element of a slice argument) into a value (`p := *param`) — the caller goes on using the original as an operand, so a copy stored in the new object is numbered, named and typed separately from the value the instructions refer to",
+		Floor: 15,
+		Run:   ruleCTORID,
+	})
+}
+
+func ruleCTORID(c *Ctx) []Obligation {
+	var obs []Obligation
+	for _, path := range []string{pkgIR, pkgCONS, pkgMD, pkgTYP} {
+		c.eachFunc(path, func(p *packages.Package, fd *ast.FuncDecl, fn *types.Func) {
+			if !fn.Exported() || !strings.HasPrefix(fn.Name(), "New") {
+				return
+			}
+			info := p.TypesInfo
+			sig := fn.Type().(*types.Signature)
+			// objects handed in: pointer-typed parameters and elements of slice parameters
+			isIRPtr := func(t types.Type) bool {
+				pt, ok := t.(*types.Pointer)
+				if !ok {
+					return false
+				}
+				n := namedOf(pt.Elem())
+				return n != nil && n.Obj().Pkg() != nil && c.isLLVM(n.Obj().Pkg().Path())
+			}
+			handed := map[types.Object]bool{}
+			for i := 0; i < sig.Params().Len(); i++ {
+				v := sig.Params().At(i)
+				if isIRPtr(v.Type()) {
+					handed[v] = true
+				}
+				if sl, ok := v.Type().Underlying().(*types.Slice); ok && isIRPtr(sl.Elem()) {
+					handed[v] = true
+				}
+			}
+			if len(handed) == 0 {
+				return
+			}
+			// the declared parameter objects
+			declared := map[types.Object]bool{}
+			for _, fl := range fd.Type.Params.List {
+				for _, nm := range fl.Names {
+					if o := info.Defs[nm]; o != nil {
+						if v, ok := o.(*types.Var); ok && (isIRPtr(v.Type()) || func() bool {
+							sl, ok := v.Type().Underlying().(*types.Slice)
+							return ok && isIRPtr(sl.Elem())
+						}()) {
+							declared[o] = true
+						}
+					}
+				}
+			}
+			// range values over a slice parameter are handed objects too
+			ast.Inspect(fd.Body, func(n ast.Node) bool {
+				if rs, ok := n.(*ast.RangeStmt); ok && rs.Value != nil {
+					if id, ok := unparen(rs.X).(*ast.Ident); ok && declared[info.ObjectOf(id)] {
+						if vid, ok := rs.Value.(*ast.Ident); ok {
+							declared[info.ObjectOf(vid)] = true
+						}
+					}
+				}
+				return true
+			})
+			o := Obligation{Key: funcKey(fn) + " keeps the objects it is handed", Pos: c.pos(fd.Pos()), Verdict: OK, Detail: fmt.Sprintf("%d pointer-typed argument(s), none dereferenced into a copy", len(declared))}
+			pm := buildParents(fd.Body)
+			ast.Inspect(fd.Body, func(n ast.Node) bool {
+				st, ok := n.(*ast.StarExpr)
+				if !ok || o.Verdict != OK {
+					return true
+				}
+				root := unparen(st.X)
+				if ix, ok := root.(*ast.IndexExpr); ok {
+					root = unparen(ix.X)
+				}
+				id, ok := root.(*ast.Ident)
+				if !ok || !declared[info.ObjectOf(id)] {
+					return true
+				}
+				if tv, ok := info.Types[st]; !ok || !tv.IsValue() {
+					return true // a type expression
+				}
+				// `*p = …` (assignment through the pointer) and `(*p).f` are not copies
+				switch par := pm[st].(type) {
+				case *ast.AssignStmt:
+					for _, l := range par.Lhs {
+						if l == ast.Expr(st) {
+							return true
+						}
+					}
+				case *ast.SelectorExpr:
+					return true
+				case *ast.ParenExpr:
+					if _, ok := pm[par].(*ast.SelectorExpr); ok {
+						return true
+					}
+				}
+				o.Verdict, o.Pos = VIOL, c.pos(st.Pos())
+				o.Detail = fmt.Sprintf("%s copies the object behind the argument %s: the new object holds the copy while the caller (and every instruction that uses it as an operand) holds the original, so numbering, naming or typing one does not reach the other — the printed text refers to a different value than the one defined", exprString(st), id.Name)
+				return true
+			})
+			obs = append(obs, o)
+		})
+	}
+	return obs
+}
+
+// ---------------------------------------------------------------------------
+// ENC-BARE
+
+func init() {
+	register(&Rule{
+		Name:  "ENC-BARE",
+		Doc:   "in the identifier encoder that chooses between the bare and the quoted spelling, every test of a byte of the name that tells an identifier character from a space (evaluated over all 256 byte values, lookup tables and masks included) puts every byte outside LLVM's identifier alphabet [-a-zA-Z$._0-9] — all bytes ≥ 0x80 included — on the side of the space: a byte classified as an identifier character is written unquoted and unescaped, and the lexer ends the name there",
+		Floor: 1,
+		Run:   ruleENCBARE,
+	})
+}
+
+func ruleENCBARE(c *Ctx) []Obligation {
+	var obs []Obligation
+	const alphabet = "-$._abcdefghijklmnopqrstuvwxyzABCDEFGHIJKLMNOPQRSTUVWXYZ0123456789"
+	c.eachFunc(pkgENC, func(p *packages.Package, fd *ast.FuncDecl, fn *types.Func) {
+		info := p.TypesInfo
+		sig := fn.Type().(*types.Signature)
+		if sig.Recv() != nil || sig.Params().Len() != 1 || sig.Results().Len() != 1 || !isPlainString(sig.Params().At(0).Type()) || !isPlainString(sig.Results().At(0).Type()) {
+			return
+		}
+		var param types.Object
+		if len(fd.Type.Params.List) == 1 && len(fd.Type.Params.List[0].Names) == 1 {
+			param = info.Defs[fd.Type.Params.List[0].Names[0]]
+		}
+		bare := false
+		ast.Inspect(fd.Body, func(n ast.Node) bool {
+			if r, ok := n.(*ast.ReturnStmt); ok && len(r.Results) == 1 {
+				if id, ok := unparen(r.Results[0]).(*ast.Ident); ok && param != nil && info.ObjectOf(id) == param {
+					bare = true
+				}
+			}
+			return true
+		})
+		if !bare {
+			return
+		}
+		// byte expressions: s[i] with a non-constant index, or a local defined as such (b := s[i])
+		byteVars := map[types.Object]bool{}
+		isByteOf := func(e ast.Expr) bool {
+			e = unparen(e)
+			if id, ok := e.(*ast.Ident); ok {
+				return byteVars[info.ObjectOf(id)]
+			}
+			ix, ok := e.(*ast.IndexExpr)
+			if !ok {
+				return false
+			}
+			id, ok := unparen(ix.X).(*ast.Ident)
+			if !ok || info.ObjectOf(id) != param {
+				return false
+			}
+			return info.Types[ix.Index].Value == nil
+		}
+		ast.Inspect(fd.Body, func(n ast.Node) bool {
+			if as, ok := n.(*ast.AssignStmt); ok && len(as.Lhs) == 1 && len(as.Rhs) == 1 && isByteOf(as.Rhs[0]) {
+				if id, ok := as.Lhs[0].(*ast.Ident); ok {
+					byteVars[info.ObjectOf(id)] = true
+				}
+			}
+			if rs, ok := n.(*ast.RangeStmt); ok && rs.Value != nil {
+				if call, ok := unparen(rs.X).(*ast.CallExpr); ok && len(call.Args) == 1 {
+					if id, ok := unparen(call.Args[0]).(*ast.Ident); ok && info.ObjectOf(id) == param {
+						if v, ok := rs.Value.(*ast.Ident); ok {
+							byteVars[info.ObjectOf(v)] = true
+						}
+					}
+				}
+			}
+			return true
+		})
+		pm := buildParents(fd.Body)
+		seen := map[ast.Expr]bool{}
+		n := 0
+		ast.Inspect(fd.Body, func(nd ast.Node) bool {
+			e, ok := nd.(ast.Expr)
+			if !ok || !isByteOf(e) {
+				return true
+			}
+			if as, ok := pm[nd].(*ast.AssignStmt); ok && len(as.Rhs) == 1 && as.Rhs[0] == e {
+				return true // the definition of a byte local
+			}
+			// the largest enclosing boolean expression over this byte alone
+			var best ast.Expr
+			for q := nd; q != nil; q = pm[q] {
+				x, ok := q.(ast.Expr)
+				if !ok {
+					break
+				}
+				if tv, ok := info.Types[x]; ok && tv.Type != nil {
+					if b, ok := tv.Type.Underlying().(*types.Basic); ok && b.Info()&types.IsBoolean != 0 {
+						if _, good := byteSet(info, x, isByteOf); good {
+							best = x
+						}
+					}
+				}
+			}
+			if best == nil {
+				// a byte of the name used in a test that cannot be evaluated: only a problem when it
+				// decides between the spellings, which the enclosing condition tells
+				for q := nd; q != nil; q = pm[q] {
+					if is, ok := q.(*ast.IfStmt); ok && is.Cond.Pos() <= e.Pos() && e.End() <= is.Cond.End() {
+						n++
+						obs = append(obs, Obligation{Key: fmt.Sprintf("%s: byte test #%d keeps bytes outside the identifier alphabet on the quoted side", funcKey(fn), n), Pos: c.pos(is.Cond.Pos()), Verdict: UNDECIDED,
+							Detail: fmt.Sprintf("the test `%s` could not be evaluated over the byte values (unrecognised table or helper)", exprString(is.Cond))})
+						break
+					}
+					if fs, ok := q.(*ast.ForStmt); ok && fs.Cond != nil && fs.Cond.Pos() <= e.Pos() && e.End() <= fs.Cond.End() {
+						n++
+						obs = append(obs, Obligation{Key: fmt.Sprintf("%s: byte test #%d keeps bytes outside the identifier alphabet on the quoted side", funcKey(fn), n), Pos: c.pos(fs.Cond.Pos()), Verdict: UNDECIDED,
+							Detail: fmt.Sprintf("the loop condition `%s` could not be evaluated over the byte values (unrecognised table or helper)", exprString(fs.Cond))})
+						break
+					}
+				}
+				return true
+			}
+			if seen[best] {
+				return true
+			}
+			seen[best] = true
+			set, _ := byteSet(info, best, isByteOf)
+			if set['a'] == set[' '] {
+				return true // not a test of identifier characters (e.g. printable vs. escaped)
+			}
+			n++
+			o := Obligation{Key: fmt.Sprintf("%s: byte test #%d keeps bytes outside the identifier alphabet on the quoted side", funcKey(fn), n), Pos: c.pos(best.Pos()), Verdict: OK}
+			var wrong [256]bool
+			any := false
+			for b := 0; b < 256; b++ {
+				if strings.IndexByte(alphabet, byte(b)) == -1 && set[b] == set['a'] {
+					wrong[b], any = true, true
+				}
+			}
+			if any {
+				o.Verdict = VIOL
+				o.Detail = fmt.Sprintf("`%s` classifies the bytes {%s} like the letter a: a name made of identifier characters and such bytes is written bare and unescaped — the lexer ends the name at that byte (or reads other bytes than the name holds), so distinct names print alike or the output does not parse", exprString(best), describeSet(wrong))
+			} else {
+				o.Detail = fmt.Sprintf("`%s`: identifier side ⊆ [-a-zA-Z$._0-9]", exprString(best))
+			}
+			obs = append(obs, o)
+			return true
+		})
+	})
+	return obs
+}
+
+// ---------------------------------------------------------------------------
+// FLAG-SIB
+
+func init() {
+	register(&Rule{
+		Name:  "FLAG-SIB",
+		Doc:   "where the grammar has two type nodes that differ by a prefix (StructType / PackedStructType, VectorType / ScalableVectorType) and the IR has one type with a boolean field named like the prefix, the translator of the prefixed node sets that field to true on its result on every path — at the top level of its body, or by handing a constant true to a helper that stores its parameter into the field: the flag does not depend on how the IR object was created (scaffold of a definition or fresh object of a literal type)",
+		Floor: 2,
+		Run:   ruleFLAGSIB,
+	})
+}
+
+func ruleFLAGSIB(c *Ctx) []Obligation {
+	var obs []Obligation
+	pa := c.pkg(pkgASM)
+	info := pa.TypesInfo
+	// translators by the AST node type they take: (…, old *ast.X) (types.Type, error)
+	byNode := map[string]*ast.FuncDecl{}
+	fnOf := map[*ast.FuncDecl]*types.Func{}
+	c.eachFunc(pkgASM, func(p *packages.Package, fd *ast.FuncDecl, fn *types.Func) {
+		sig := fn.Type().(*types.Signature)
+		if sig.Results().Len() != 2 || !isErrorType(sig.Results().At(1).Type()) || !isNamed(sig.Results().At(0).Type(), pkgTYP, "Type") {
+			return
+		}
+		for i := 0; i < sig.Params().Len(); i++ {
+			if pt, ok := sig.Params().At(i).Type().(*types.Pointer); ok {
+				if n := namedOf(pt.Elem()); n != nil && n.Obj().Pkg() != nil && n.Obj().Pkg().Path() == pkgAST && strings.HasSuffix(n.Obj().Name(), "Type") {
+					byNode[n.Obj().Name()] = fd
+					fnOf[fd] = fn
+				}
+			}
+		}
+	})
+	// setsFlag: does fd establish field `flag` = true on its result on every path?
+	var setsFlag func(fd *ast.FuncDecl, flag string, trueParams map[types.Object]bool, depth int) (bool, string)
+	setsFlag = func(fd *ast.FuncDecl, flag string, trueParams map[types.Object]bool, depth int) (bool, string) {
+		isTrue := func(e ast.Expr) bool {
+			if tv := info.Types[e]; tv.Value != nil && tv.Value.String() == "true" {
+				return true
+			}
+			if id, ok := unparen(e).(*ast.Ident); ok && trueParams[info.ObjectOf(id)] {
+				return true
+			}
+			return false
+		}
+		for _, st := range fd.Body.List {
+			switch x := st.(type) {
+			case *ast.AssignStmt:
+				for i, l := range x.Lhs {
+					if se, ok := unparen(l).(*ast.SelectorExpr); ok && se.Sel.Name == flag && i < len(x.Rhs) && isTrue(x.Rhs[i]) {
+						return true, "top-level store " + exprString(l) + " = " + exprString(x.Rhs[i])
+					}
+				}
+			case *ast.IfStmt:
+				// if flagParam { typ.Flag = true }
+				if isTrue(x.Cond) && x.Else == nil {
+					for _, b := range x.Body.List {
+						if as, ok := b.(*ast.AssignStmt); ok {
+							for i, l := range as.Lhs {
+								if se, ok := unparen(l).(*ast.SelectorExpr); ok && se.Sel.Name == flag && i < len(as.Rhs) && isTrue(as.Rhs[i]) {
+									return true, "store under the flag parameter"
+								}
+							}
+						}
+					}
+				}
+			case *ast.ReturnStmt:
+				// delegation: return gen.helper(t, true, old)
+				if len(x.Results) == 1 && depth < 2 {
+					if call, ok := unparen(x.Results[0]).(*ast.CallExpr); ok {
+						f := calleeOf(info, call)
+						hfd := c.funcDecl(f)
+						if f != nil && hfd != nil && hfd.Body != nil && f.Pkg() != nil && f.Pkg().Path() == pkgASM {
+							tp := map[types.Object]bool{}
+							k := 0
+							for _, fl := range hfd.Type.Params.List {
+								for _, nm := range fl.Names {
+									if k < len(call.Args) && isTrue(call.Args[k]) {
+										tp[info.Defs[nm]] = true
+									}
+									k++
+								}
+							}
+							if len(tp) > 0 {
+								if ok, how := setsFlag(hfd, flag, tp, depth+1); ok {
+									return true, "through " + f.Name() + ": " + how
+								}
+							}
+						}
+					}
+				}
+			}
+		}
+		return false, ""
+	}
+	for _, prefix := range []string{"Packed", "Scalable"} {
+		for name, fd := range byNode {
+			if !strings.HasPrefix(name, prefix) {
+				continue
+			}
+			base := strings.TrimPrefix(name, prefix)
+			if byNode[base] == nil {
+				continue
+			}
+			o := Obligation{Key: fmt.Sprintf("%s sets %s on the type it returns", funcKey(fnOf[fd]), prefix), Pos: c.pos(fd.Pos()), Verdict: OK, Tags: []string{"types"}}
+			if ok, how := setsFlag(fd, prefix, nil, 0); ok {
+				o.Detail = how
+			} else {
+				o.Verdict = VIOL
+				o.Detail = fmt.Sprintf("the translator of *ast.%s does not set %s = true on its result on every path (no top-level store, no constant true handed to a helper that stores it): a type that is not created through the scaffold of a type definition — a literal `<{ … }>` / `<vscale x …>` inside another type — is built like its plain sibling *ast.%s, so two different types compare equal and print alike", name, prefix, base)
+			}
+			obs = append(obs, o)
+		}
+	}
+	sort.SliceStable(obs, func(i, j int) bool { return obs[i].Key < obs[j].Key })
+	return obs
+}
+
+// ---------------------------------------------------------------------------
+// PHASE-READ
+
+func init() {
+	register(&Rule{
+		Name:  "PHASE-READ",
+		Doc:   "a step of the translation that visits the top-level entities in map-iteration order fills fields of globals, functions, aliases and ifuncs (Init, Blocks, Aliasee …); no code that runs in that step reads such a field of an entity it reached as a reference (a value obtained through a type switch or assertion from value.Value / constant.Constant): whether the referenced entity has been filled yet depends on the order the map happens to be iterated in, so the same input would be accepted, rejected or translated differently from run to run",
+		Floor: 20,
+		Run:   rulePHASEREAD,
+	})
+}
+
+func rulePHASEREAD(c *Ctx) []Obligation {
+	refs, _, _, _ := c.translatePhases()
+	if len(refs) == 0 {
+		return []Obligation{{Key: "translation steps", Verdict: UNDECIDED, Detail: "the steps of asm.translate could not be listed"}}
+	}
+	pa := c.pkg(pkgASM)
+	info := pa.TypesInfo
+	entity := func(t types.Type) *types.Named {
+		if p, ok := t.(*types.Pointer); ok {
+			t = p.Elem()
+		}
+		n := namedOf(t)
+		if n == nil || n.Obj().Pkg() == nil || n.Obj().Pkg().Path() != pkgIR {
+			return nil
+		}
+		switch n.Obj().Name() {
+		case "Global", "Func", "Alias", "IFunc":
+			return n
+		}
+		return nil
+	}
+	// call closure inside package asm
+	callees := map[*types.Func][]*types.Func{}
+	c.eachFunc(pkgASM, func(p *packages.Package, fd *ast.FuncDecl, fn *types.Func) {
+		ast.Inspect(fd.Body, func(n ast.Node) bool {
+			switch x := n.(type) {
+			case *ast.CallExpr:
+				if f := calleeOf(info, x); f != nil && f.Pkg() != nil && f.Pkg().Path() == pkgASM {
+					callees[fn] = append(callees[fn], f)
+				}
+			case *ast.SelectorExpr:
+				if sel, ok := info.Selections[x]; ok && sel.Kind() == types.MethodVal {
+					if f, ok := sel.Obj().(*types.Func); ok && f.Pkg() != nil && f.Pkg().Path() == pkgASM {
+						callees[fn] = append(callees[fn], f)
+					}
+				}
+			}
+			return true
+		})
+	})
+	reach := func(root *types.Func) map[*types.Func]bool {
+		out := map[*types.Func]bool{}
+		var visit func(f *types.Func)
+		visit = func(f *types.Func) {
+			if out[f] {
+				return
+			}
+			out[f] = true
+			for _, g := range callees[f] {
+				visit(g)
+			}
+		}
+		visit(root)
+		return out
+	}
+	var obs []Obligation
+	seenStep := map[*types.Func]bool{}
+	for _, ref := range refs {
+		if seenStep[ref.fn] {
+			continue
+		}
+		seenStep[ref.fn] = true
+		sfd := c.funcDecl(ref.fn)
+		if sfd == nil || sfd.Body == nil {
+			continue
+		}
+		// map-ordered step: ranges over a map
+		mapOrdered := false
+		ast.Inspect(sfd.Body, func(n ast.Node) bool {
+			if rs, ok := n.(*ast.RangeStmt); ok {
+				if _, isMap := info.TypeOf(rs.X).Underlying().(*types.Map); isMap {
+					mapOrdered = true
+				}
+			}
+			return true
+		})
+		if !mapOrdered {
+			continue
+		}
+		fns := reach(ref.fn)
+		// fields of entities written in this step
+		written := map[string]token.Pos{}
+		for f := range fns {
+			fd := c.funcDecl(f)
+			if fd == nil || fd.Body == nil {
+				continue
+			}
+			ast.Inspect(fd.Body, func(n ast.Node) bool {
+				as, ok := n.(*ast.AssignStmt)
+				if !ok {
+					return true
+				}
+				for _, l := range as.Lhs {
+					t := unparen(l)
+					if ix, ok := t.(*ast.IndexExpr); ok {
+						t = unparen(ix.X)
+					}
+					if se, ok := t.(*ast.SelectorExpr); ok {
+						if sel, ok := info.Selections[se]; ok && sel.Kind() == types.FieldVal {
+							if en := entity(sel.Recv()); en != nil {
+								k := en.Obj().Name() + "." + se.Sel.Name
+								if _, has := written[k]; !has {
+									written[k] = as.Pos()
+								}
+							}
+						}
+					}
+				}
+				return true
+			})
+		}
+		if len(written) == 0 {
+			continue
+		}
+		// reads of those fields through a reference (type switch / assertion from an interface value)
+		reads := map[string]token.Pos{}
+		for f := range fns {
+			fd := c.funcDecl(f)
+			if fd == nil || fd.Body == nil {
+				continue
+			}
+			// variables bound by a type switch or a type assertion on an interface value
+			refVars := map[types.Object]bool{}
+			ast.Inspect(fd.Body, func(n ast.Node) bool {
+				switch x := n.(type) {
+				case *ast.TypeSwitchStmt:
+					if as, ok := x.Assign.(*ast.AssignStmt); ok {
+						if ta, ok := as.Rhs[0].(*ast.TypeAssertExpr); ok && isValueIface(info.TypeOf(ta.X)) {
+							for _, cc := range x.Body.List {
+								if obj := info.Implicits[cc]; obj != nil && entity(obj.Type()) != nil {
+									refVars[obj] = true
+								}
+							}
+						}
+					}
+				case *ast.AssignStmt:
+					if len(x.Rhs) == 1 {
+						if ta, ok := unparen(x.Rhs[0]).(*ast.TypeAssertExpr); ok && ta.Type != nil && isValueIface(info.TypeOf(ta.X)) && entity(info.TypeOf(ta.Type)) != nil {
+							if id, ok := x.Lhs[0].(*ast.Ident); ok {
+								refVars[info.ObjectOf(id)] = true
+							}
+						}
+					}
+				}
+				return true
+			})
+			if len(refVars) == 0 {
+				continue
+			}
+			ast.Inspect(fd.Body, func(n ast.Node) bool {
+				se, ok := n.(*ast.SelectorExpr)
+				if !ok {
+					return true
+				}
+				sel, ok := info.Selections[se]
+				if !ok || sel.Kind() != types.FieldVal {
+					return true
+				}
+				id, ok := unparen(se.X).(*ast.Ident)
+				if !ok || !refVars[info.ObjectOf(id)] {
+					return true
+				}
+				if en := entity(sel.Recv()); en != nil {
+					k := en.Obj().Name() + "." + se.Sel.Name
+					if _, w := written[k]; w {
+						if _, has := reads[k]; !has {
+							reads[k] = se.Pos()
+						}
+					}
+				}
+				return true
+			})
+		}
+		for _, k := range sortedKeys(written) {
+			o := Obligation{Key: fmt.Sprintf("step %s fills ir.%s: not read through a reference in the same step", ref.fn.Name(), k), Pos: c.pos(written[k]), Verdict: OK, Detail: "filled in map-iteration order; no read of it on an entity reached as a value"}
+			if pos, bad := reads[k]; bad {
+				o.Verdict, o.Pos = VIOL, c.pos(pos)
+				o.Detail = fmt.Sprintf("ir.%s is filled during step %s, which visits the entities in map-iteration order, and is read at %s on an entity reached as a reference: whether that entity has been filled yet differs from run to run, so one input is accepted, rejected or translated differently depending on the iteration order", k, ref.fn.Name(), c.pos(pos))
+			}
+			obs = append(obs, o)
+		}
+	}
+	return obs
+}
+
+// isValueIface: value.Value, constant.Constant or another interface of the IR packages.
+func isValueIface(t types.Type) bool {
+	if t == nil || !types.IsInterface(t) {
+		return false
+	}
+	n := namedOf(t)
+	return n != nil && n.Obj().Pkg() != nil && isIRPkg(n.Obj().Pkg().Path())
 }
